@@ -79,10 +79,40 @@ def run(ctx):
             # the level logger's clock is minutes off the rain gauge's (levels are interpolated onto the grid)
             rec.phase = rng.choice([60, 120, 420, 140, 300, 1000, 1740]) % rec.dt
         runs = [(t0, "UTC") for t0 in origins(rng, rec.dt, k, rec.n)] + [(86400 * 20000 // rec.dt * rec.dt, z) for z in zones]
+        first_failure = None
         for t0, tz in runs:
             r2 = gen.Record(rec.dt, t0, rec.rain, rec.level, rec.removed, rec.pre, rec.post, phase=rec.phase)
             res = C.run_case(ctx, r2, s, j, tz="UTC" if tz == "UTC" else tz)
             inp = C.replay_input(r2, s, j, tz)
+            failed = "load" if res["load"][0] != "ok" else ("classify" if res["classify"][0] != "ok" else None)
+            if failed and base is None:
+                # remember: if the same data goes through at a later origin, this failure was a dependence on the origin
+                if first_failure is None:
+                    first_failure = (t0, tz, failed, list(res[failed]), inp)
+                ctx.count("load_refused" if failed == "load" else "impl_error")
+                continue
+            if not failed and first_failure is not None:
+                f0, ftz, fwhat, fstatus, finp = first_failure
+                first_failure = None
+                ctx.case(("c07", i, f0, ftz), True)
+                ctx.obligation(ob_rel, False)
+                ctx.violation("impl-violation", "c07Holds", {
+                    "input": {"first": inp, "second": finp, "shift_s": None},
+                    "impl": {"first": "ok", "second": fstatus},
+                    "oracle": {"name": "c07Holds", "result": False,
+                               "witness": {"differs_on": ["`%s` fails at this origin and succeeds at the other" % fwhat],
+                                           "origin_a": t0, "origin_b": f0, "zone_b": ftz, "status": fstatus}}})
+            if failed and base is not None:
+                # the same data was processed at another origin: failing here is a dependence on the origin
+                ctx.case(("c07", i, t0, tz), True)
+                ctx.obligation(ob_rel, False)
+                ctx.violation("impl-violation", "c07Holds", {
+                    "input": {"first": base[2], "second": inp, "shift_s": None},
+                    "impl": {"first": "ok", "second": list(res[failed])},
+                    "oracle": {"name": "c07Holds", "result": False,
+                               "witness": {"differs_on": ["`%s` fails at this origin and succeeds at the other" % failed],
+                                           "origin_a": base[0], "origin_b": t0, "zone_b": tz, "status": list(res[failed])}}})
+                continue
             if res["load"][0] != "ok":
                 ctx.count("load_refused")
                 break
@@ -115,6 +145,16 @@ def run(ctx):
                                "witness": {"differs_on": which, "origin_a": base[0], "origin_b": e0}}})
             elif not same:
                 ctx.corr_break(ob_corr, {"input": inp, "impl": im, "model": m})
+        if base is None:
+            all_origins_failed(ctx, first_failure, ob_corr)
+
+
+def all_origins_failed(ctx, first_failure, ob):
+    """nothing went through at any origin: not an origin dependence, but the generated records are valid"""
+    if first_failure is not None:
+        _t0, _tz, what, status, inp = first_failure
+        ctx.corr_break(ob, {"input": inp, "impl": status,
+                            "no_longer_checks": "`%s` succeeds on a generated record (it fails at every origin tried)" % what})
 
 
 def curves_across_origins(ctx, n, k):
@@ -126,14 +166,29 @@ def curves_across_origins(ctx, n, k):
         tr = P.gen_truth(rng, noise=rng.choice([0.0, 0.4]), dt=rng.choice([600, 1200, 1200, 1800]))
         zstep = rng.choice([1.0, 0.5, 2.0])
         base = None
+        first_fail = None
         runs = [(t0, "UTC") for t0 in origins(rng, tr.dt, k)] + [(86400 * 15000 // tr.dt * tr.dt, "Etc/GMT%+d" % rng.choice([-11, -3, 4, 9]))]
         for t0, tz in runs:
             tr.t0 = t0
             w = P.run_workflow(ctx, tr.rows(), tr.s, tr.j, zstep, tz=tz)
             st, t = w["status"], w["tables"]
             if st.get("rise", ("x",))[0] != "ok" or st.get("recession", ("x",))[0] != "ok":
+                if base is not None:
+                    ctx.case(("c07-curves", i, t0, tz), True)
+                    ctx.obligation(ob, False)
+                    ctx.violation("impl-violation", "c07Holds", {
+                        "input": {"truth": tr.describe(), "zeta_step": zstep, "first": {"t0": base[0], "timezone": base[1]},
+                                  "second": {"t0": t0, "timezone": tz}},
+                        "impl": {"first": "ok", "second": {k_: list(v) for k_, v in st.items()}},
+                        "oracle": {"name": "c07Holds", "result": False,
+                                   "witness": {"differs_on": ["the workflow fails at this origin and succeeds at the other"],
+                                               "origin_a": base[0], "origin_b": t0, "zone_b": tz,
+                                               "status": {k_: list(v) for k_, v in st.items()}}}})
+                    break
                 ctx.count("curves_not_assembled")
-                break
+                if first_fail is None:
+                    first_fail = (t0, tz, {k_: list(v) for k_, v in st.items()})
+                continue
             e0 = t["grid_time"][0][0]
             cur = {"rise": t["average_rising_depth"], "recession": t["average_recession_time"],
                    "rising_interval": [[int(a) - e0, b] for a, b in t["rising_interval"]],
@@ -141,6 +196,16 @@ def curves_across_origins(ctx, n, k):
             ctx.case(("c07-curves", i, t0, tz), True)
             if base is None:
                 base = (t0, tz, cur)
+                if first_fail is not None:
+                    ctx.obligation(ob, False)
+                    ctx.violation("impl-violation", "c07Holds", {
+                        "input": {"truth": tr.describe(), "zeta_step": zstep, "first": {"t0": t0, "timezone": tz},
+                                  "second": {"t0": first_fail[0], "timezone": first_fail[1]}},
+                        "impl": {"first": "ok", "second": first_fail[2]},
+                        "oracle": {"name": "c07Holds", "result": False,
+                                   "witness": {"differs_on": ["the workflow fails at this origin and succeeds at the other"],
+                                               "origin_a": t0, "origin_b": first_fail[0], "zone_b": first_fail[1], "status": first_fail[2]}}})
+                    break
                 continue
 
             def close(x, y):
